@@ -36,11 +36,13 @@ def _digests(prop, tier, master, indices):
 
 
 def determinism(props, n=200, master=12345):
-    ok = True
+    all_ok = True
     for prop in props:
+        ok = True
         t0 = time.time()
         scn = driver.load_scenario(prop)
-        idx = list(range(n))
+        off = int(os.environ.get("VERIF_SELFTEST_OFFSET", "0"))
+        idx = list(range(off, off + n))  # an offset beyond the systematic indices reaches the random plans
         first = _digests(prop, "quick", master, idx)
         # unrelated runs in between (other master seed), then again in reverse order
         _digests(prop, "quick", master + 1, idx[: n // 4])
@@ -79,7 +81,8 @@ def determinism(props, n=200, master=12345):
             ok = False
             print("SELFTEST-FAIL determinism %s: 1 worker vs 16 workers explored different things: %s vs %s" % (prop, res[0], res[1]))
         print("selftest determinism %s: %d plans x (twice in-process, fresh interpreter under 2 hash seeds), 1 vs 16 workers: %s (%.0fs)" % (prop, n, "ok" if ok else "FAILED", time.time() - t0))
-    return ok
+        all_ok &= ok
+    return all_ok
 
 
 def main(argv):
